@@ -71,7 +71,7 @@ Definition only_wrong_secrets (p : pres) : bool :=
 Lemma only_wrong_secrets_presents_nothing : forall p,
   only_wrong_secrets p = true -> presents_right_secret p = false /\ presents_ok_assertion p = false.
 Proof.
-  intros p H; destruct p as [| |[] ?| |[]|[]| | | |[] []|?|?|?|?|?|[] []]; try discriminate H; split; reflexivity.
+  intros p H; destruct p as [| |[] ?| |[]|[]|[]| | | |[] []|?|?|?|?|?|[] []]; try discriminate H; split; reflexivity.
 Qed.
 
 (* a near miss of X's id is nobody's id: with X's exact secret, any other secret or none, in the
@@ -119,4 +119,62 @@ Example near_miss_nonvacuous :
   /\ success (model (mkInput RProvider EToken all_on pub PIdOnly GCode std_pl NoPrev)) = true
   /\ model (mkInput RProvider EToken all_on pub (PNearId IdForm SEmpty) GCode std_pl NoPrev) = ORes S4 EInvalidClient false false WNone
   /\ only_wrong_secrets (PBoth SBlank SNear) = true.
+Proof. vm_compute. repeat split; reflexivity. Qed.
+
+(* ---------------- round 6: auth methods outside the constants, optional provider methods *)
+
+(* a client whose registered auth method is none of the library's constants (unset,
+   client_secret_jwt, tls_client_auth, an unknown string, a case variant) is held to its secret:
+   no tokens without the exact secret, on either router, for any grant that reads a client
+   credential - in particular not for a bare client_id on the device_code grant *)
+Lemma other_method_needs_secret : forall r c rg p g pl pv,
+  r_meth rg = MOther -> presents_right_secret p = false -> g <> GBearer ->
+  success (model (mkInput r EToken c rg p g pl pv)) = false.
+Proof.
+  intros r c rg p g pl pv Hm Hp Hgb.
+  assert (Hno : names_other p = false) by (destruct p; cbn in *; congruence).
+  destruct (success (model (mkInput r EToken c rg p g pl pv))) eqn:Hs; [|reflexivity].
+  assert (Hcv : forall b, cred_valid c rg p b = false).
+  { intro b. unfold cred_valid. rewrite Hm, Hp. now rewrite andb_false_r. }
+  destruct (known_gap (mkInput r EToken c rg p g pl pv)) eqn:Hg.
+  - unfold known_gap in Hg; cbn [i_router i_endpoint i_grant i_reg] in Hg.
+    destruct r, g; try discriminate Hg. apply negb_true_iff in Hg.
+    destruct (token_gap c rg p pl pv Hg Hno Hs) as [_ Hc]. rewrite Hcv in Hc. discriminate Hc.
+  - pose proof (token_success_justified (mkInput r EToken c rg p g pl pv) eq_refl Hg Hno Hs) as Hj.
+    cbn [i_cfg i_reg i_pres i_grant] in Hj. unfold token_justified in Hj. rewrite Hcv in Hj.
+    destruct g; try congruence; rewrite ?andb_false_r in Hj; discriminate Hj.
+Qed.
+
+(* the LegacyServer over a provider object without the optional method JWTProfileVerifier: a
+   request that carries a client assertion (valid, wrong, junk; with or without client_id or type)
+   obtains nothing on introspection and nothing on the token endpoint - the assertion is never
+   dropped in favour of the secret check *)
+Definition carries_assertion (p : pres) : bool :=
+  match p with
+  | PAssert _ | PAssertId _ | PAssertNoType | PAssertWrongType | PXAssert _ | PNearId IdAssert _ => true
+  | _ => false
+  end.
+Lemma bare_provider_assertion_refused : forall e c rg p g pl pv,
+  c_jp c = false -> carries_assertion p = true -> e = EIntrospect \/ e = EToken ->
+  success (model (mkInput RLegacy e c rg p g pl pv)) = false.
+Proof.
+  intros e c rg p g pl pv Hc Hp He.
+  destruct c as [fpost fpk fref ccc cte cdev cjp]; cbn in Hc; subst cjp.
+  destruct pl as [gp cp ap]; destruct rg as [known meth app gs key].
+  unfold model; cbn [i_endpoint i_cfg i_reg i_pres i_grant i_router i_pl i_prev].
+  destruct p as [| |? ?| |?|?|?| | | |? ?|?|?|?|?|?|[] ?]; try discriminate Hp; clear Hp.
+  all: destruct He as [->| ->]; [|destruct g]; cbn; split_goal.
+Qed.
+
+Example round6_nonvacuous :
+  let oth := mkReg true MOther AWeb all_grants false in
+  let pub := mkReg true MNone ANative all_grants false in
+  let bare := mkCfg true true true true true true false in
+  (* seeded regression C05-K: bare client_id, method outside the constants, device_code grant *)
+  model (mkInput RProvider EToken all_on oth PIdOnly GDevice std_pl NoPrev) = ORes S4 EInvalidClient false false WNone
+  /\ success (model (mkInput RProvider EToken all_on oth (PBasic SRight false) GDevice std_pl NoPrev)) = true
+  (* seeded regression C05-L: junk assertion next to the id of a secretless client *)
+  /\ model (mkInput RLegacy EIntrospect bare pub (PAssertId AJunk) GMissing std_pl NoPrev) = ORes S4 EInvalidClient false false WNone
+  /\ model (mkInput RLegacy EToken bare (mkReg true MPKJWT AWeb all_grants true) (PAssert AOk) GCode std_pl NoPrev) = ORes S4 EInvalidClient false false WNone
+  /\ success (model (mkInput RLegacy EToken all_on (mkReg true MPKJWT AWeb all_grants true) (PAssert AOk) GCode std_pl NoPrev)) = true.
 Proof. vm_compute. repeat split; reflexivity. Qed.
